@@ -377,8 +377,8 @@ class Harness:
         elif kind == "regrant":
             r = ev[1] if len(ev) > 1 else 0
             # what the Seed response handler does with the simulator's (second) grant: region.update_caps(parsed)
-            new_url = cap_url(0, r, "EventQueueGet") + "-regranted"
-            w.eq_regions[r].update_caps({"EventQueueGet": new_url, "FooCap": cap_url(0, r, "FooCap")})
+            new_url = cap_url(0, r, "regranted-EventQueueGet")      # (not prefix-related to the first URL)
+            w.eq_regions[r].update_caps({"EventQueueGet": new_url})
             w.eq_urls[r] = new_url
             w.rm[r].regrants += 1
             w.last_obs = ("regrant",)
